@@ -303,11 +303,31 @@ class Box:
     """a per-mode array of ModeEv: a value with identity (aliases share it)"""
 
     arr = False      # known to be an array (created by a constructor that returns one, or stored into through a subscript): `x += y` is in place
+    links = None     # boxes that MAY share this array's memory (np.asarray(x, dtype=...), np.ascontiguousarray(x), x.ravel(), np.array(x, copy=False)):
+                     # whether the call returned its operand or a converted copy depends on dtypes / strides the evaluator does not track
 
     def __init__(self, v, arr=False):
         self.v = v
         if arr:
             self.arr = True
+
+    def set(self, v):
+        """a write into the array: every box that may share its memory is not known afterwards (it changed if it is the same array, it did not if it
+        is a copy - never a guess)"""
+        self.v = v
+        if self.links:
+            others, self.links = self.links, None
+            for o in others:
+                if o.links:
+                    o.links = [x for x in o.links if x is not self] or None
+                o.set(Unknown("may share its memory with an array that was written afterwards (the call that made it returns its operand or a copy, "
+                              "depending on dtype / memory layout)"))
+
+    def link(self, other):
+        if other is self:
+            return
+        self.links = (self.links or []) + [other]
+        other.links = (other.links or []) + [self]
 
     def __repr__(self):
         return f"Box({self.v!r})"
@@ -336,11 +356,80 @@ PURE_BUILTINS = {"len", "abs", "min", "max", "sum", "any", "all", "range", "zip"
                  "partial", "attrgetter", "itemgetter", "format", "vars"}
 UFUNC2 = {"np.add": ast.Add, "np.subtract": ast.Sub, "np.multiply": ast.Mult, "np.divide": ast.Div, "np.true_divide": ast.Div, "np.power": ast.Pow,
           "np.matmul": ast.MatMult, "np.dot": ast.MatMult, "numpy.matmul": ast.MatMult, "numpy.dot": ast.MatMult}
-IDENT_FUNCS = {"np.copy", "np.ascontiguousarray", "np.asfortranarray", "np.asanyarray", "np.asarray", "np.array", "np.atleast_1d", "np.atleast_2d"}
+# array-from-array library functions: does the result share the memory of the operand?  "copy": never (new memory); "alias": the operand itself or a view
+# of it; "maybe": the operand when no conversion is needed, else a copy - decided by dtypes / strides the evaluator does not track
+ARRAY_FROM = {"np.copy": "copy", "np.array": "copy", "np.asarray": "alias", "np.asanyarray": "alias", "np.atleast_1d": "alias", "np.atleast_2d": "alias",
+              "np.atleast_3d": "alias", "np.squeeze": "alias", "np.ascontiguousarray": "maybe", "np.asfortranarray": "maybe", "np.require": "maybe",
+              "np.ravel": "maybe", "np.asarray_chkfinite": "maybe"}
+ARRAY_FROM.update({"numpy" + k[2:]: v for k, v in list(ARRAY_FROM.items())})
+SPLIT_FUNCS = {"np.split": None, "np.array_split": None, "np.vsplit": 0, "np.hsplit": 1, "numpy.split": None, "numpy.array_split": None, "numpy.vsplit": 0,
+               "numpy.hsplit": 1}
 
 
 def has_ref(v):
     return isinstance(v, REFS) or (isinstance(v, tuple) and any(has_ref(x) for x in v))
+
+
+CANON_MODULES = {"numpy": "np", "scipy.linalg": "la", "numpy.linalg": "np.linalg", "scipy": "scipy", "math": "math", "operator": "operator",
+                 "functools": "functools", "itertools": "itertools", "types": "types", "collections": "collections"}
+
+
+def import_aliases(mod):
+    """{local name: canonical dotted name} for the library names a module imports under another spelling: `import numpy` / `import numpy as xp` ->
+    np, `import scipy.linalg [as sla]` / `from scipy import linalg` -> la, `from numpy import exp as _exp` -> np.exp, `from scipy.linalg import lu_solve`
+    -> la.lu_solve, `from math import sqrt` -> math.sqrt, `from functools import reduce as fold` -> reduce.  The evaluators key the library on the
+    canonical spellings (np.exp, la.lu_solve, reduce); which name the module binds them to is not behaviour"""
+    if mod is None:
+        return {}
+    cache = getattr(mod, "_c01_import_aliases", None)
+    if cache is not None:
+        return cache
+    out = {}
+    for st in ast.walk(mod.tree):
+        if isinstance(st, ast.Import):
+            for al in st.names:
+                canon = CANON_MODULES.get(al.name)
+                if canon is None:
+                    continue
+                if al.asname:
+                    if al.asname != canon:
+                        out[al.asname] = canon
+                elif al.name != canon:
+                    out[al.name] = canon                  # `import numpy`: numpy.exp; `import scipy.linalg`: scipy.linalg.solve
+        elif isinstance(st, ast.ImportFrom) and st.level == 0 and st.module:
+            for al in st.names:
+                local = al.asname or al.name
+                full = f"{st.module}.{al.name}"
+                if full in CANON_MODULES:                 # from scipy import linalg [as sla]
+                    if local != CANON_MODULES[full]:
+                        out[local] = CANON_MODULES[full]
+                    continue
+                canon = CANON_MODULES.get(st.module)
+                if canon is None:
+                    continue
+                if st.module in ("functools", "itertools", "operator", "types", "collections"):
+                    target = al.name if st.module != "operator" else f"operator.{al.name}"      # the evaluators know reduce / accumulate / partial by bare name
+                else:
+                    target = f"{canon}.{al.name}"
+                if local != target:
+                    out[local] = target
+    try:
+        mod._c01_import_aliases = out
+    except Exception:  # noqa
+        pass
+    return out
+
+
+def canon_dotted(d, aliases):
+    """canonical spelling of a dotted library name under the module's import aliases (longest aliased prefix), else d"""
+    if not d or not aliases:
+        return d
+    parts = d.split(".")
+    for k in range(len(parts), 0, -1):
+        pre = ".".join(parts[:k])
+        if pre in aliases:
+            return ".".join([aliases[pre]] + parts[k:])
+    return d
 
 
 # ---------------------------------------------------------------------------------------------------------------- the evaluator
@@ -367,11 +456,12 @@ class Ev01(AutoEvaluator):
         self.yields = None       # values yielded so far when the evaluated function is a generator
         self.yield_lost = False  # a `yield` sits in a region that was not executed / in a form that is not modelled
         self.skipped = []        # (statement, reason): regions with stores that were not executed (undecided test, loop that could not be enumerated)
+        self.ndims = {}          # symbol name -> number of axes of the array it stands for, where the rule knows it (`E`: a matrix)
 
     # ---- configuration inherited by the evaluator of an inlined helper
     def spawn(self, fn, env):
         sub = type(self)(fn, env=env, cond=self.cond, src=self.src, subscript=self.subscript, call=self.call_hook, binop=self.binop_hook)
-        for a in ("nonnull", "truth", "distinct", "inl", "nt", "fancy_copy", "cmp_hook", "cmp_log", "loop_unroll", "loop_once", "forward_stores", "erase_T"):
+        for a in ("nonnull", "truth", "distinct", "inl", "nt", "fancy_copy", "cmp_hook", "cmp_log", "loop_unroll", "loop_once", "forward_stores", "erase_T", "ndims"):
             setattr(sub, a, getattr(self, a))
         if hasattr(self, "module_consts"):
             sub.module_consts = self.module_consts
@@ -562,6 +652,12 @@ class Ev01(AutoEvaluator):
             return FuncV("closure", fn=f, scope=self.env, owner=self)
         if isinstance(node, ast.Attribute):
             d = dotted(node)
+            if d is not None and d not in self.env:
+                c = self.canon_name(d)
+                if c != d:
+                    cn = _dotted_node(c, node)          # xp.newaxis, numpy.pi, a library function passed as a value under the module's alias
+                    if cn is not None:
+                        return self._evr(cn)
             if d is not None:
                 v = self.env.get(d)
                 if has_ref(v):
@@ -1089,6 +1185,10 @@ class Ev01(AutoEvaluator):
             if k is None or k not in base.d:
                 return Unknown(f"key of {ast.unparse(node)[:60]} not in the dict")
             return base.d[k]
+        if isinstance(base, (Box, F.Rat)) and (is_full_slice(sl) or (isinstance(sl, ast.Constant) and sl.value is Ellipsis) or self.is_newaxis_only(sl)):
+            r = self.whole_view(node.value, base)          # X[:], X[...], X[:, None]: a view of the whole array - the array itself, not a copy
+            if r is not None:
+                return r
         if isinstance(base, Box):
             base = base.v
         if isinstance(base, tuple):
@@ -1099,6 +1199,10 @@ class Ev01(AutoEvaluator):
         if self.is_newaxis_only(sl):
             return base
         return self.scalar_subscript(node, base)
+
+    def whole_view(self, node, base):
+        """hook (ModeEv): the array object the expression `node` denotes, for a subscript that selects all of it"""
+        return None
 
     def scalar_subscript(self, node, base):
         # decided on the *value* of the index: only full slices / None / np.newaxis (however the tuple was built) reshape, they select nothing
@@ -1496,7 +1600,7 @@ class Ev01(AutoEvaluator):
         self._assign(ast.fix_missing_locations(t), nv, st)
 
     def box_update(self, st, box, nv):
-        box.v = nv
+        box.set(nv)
 
     # ---- regions that are not executed: what they store into is not known afterwards (never "unchanged")
     INPLACE_FIRST = {"np.put", "np.place", "np.putmask", "np.copyto", "np.fill_diagonal", "np.put_along_axis", "numpy.put", "numpy.place", "numpy.putmask",
@@ -1613,7 +1717,7 @@ class Ev01(AutoEvaluator):
             H.poisoned = why
             H.bad.append(("skipped store", why))
         elif isinstance(v, Box):
-            v.v = Unknown(why)
+            v.set(Unknown(why))
         elif isinstance(v, (DictV, tuple)):
             # a container: every array it holds by reference, and (dict) every entry
             _seen = _seen if _seen is not None else set()
@@ -1753,6 +1857,7 @@ class Ev01(AutoEvaluator):
                 else:
                     self.poison_expr(f_.value, why, orig, whole=True)
             return node
+        node = self.canon_call(node)
         # the callee as a value: a local closure / lambda, functools.partial, attrgetter(...)(x), operator.add -> applied here; a variable, a
         # conditional expression, a table lookup or a call that yields a function (helper, bound method, library function) -> called by its name
         fv = self.callee_value(node.func)
@@ -1811,6 +1916,34 @@ class Ev01(AutoEvaluator):
         finally:
             self.call_hook, self.inline = hook, inl
 
+    def canon_name(self, d):
+        """a dotted library name in the canonical spelling (import aliases of the module that defines the evaluated function), unless its root is a
+        local of the function or a followed helper"""
+        if not d:
+            return d
+        root = d.split(".")[0]
+        if root in self.env or root in self.buffers or d in self.inl or root in self.inl:
+            return d
+        return canon_dotted(d, import_aliases(getattr(self.fn, "_vmod", None)))
+
+    def canon_call(self, node):
+        f = node.func
+        if isinstance(f, _Lit) or not isinstance(f, (ast.Name, ast.Attribute)):
+            return node
+        d = dotted(f)
+        c = self.canon_name(d)
+        if c == d or c is None:
+            return node
+        nf = _dotted_node(c, node)
+        if nf is None:
+            return node
+        new = ast.Call(func=nf, args=node.args, keywords=node.keywords)
+        ast.copy_location(new, node)
+        for a in ("_vmod", "_vparent", "_vqual"):
+            if hasattr(node, a):
+                setattr(new, a, getattr(node, a))
+        return new
+
     def unfollowed(self, d, node):
         """hook: a call that is neither modelled nor followed is about to be kept as an opaque application (ModeEv: see there)"""
 
@@ -1820,7 +1953,13 @@ class Ev01(AutoEvaluator):
         why = f"written in place by `{ast.unparse(node)[:60]}`, which the evaluator does not model"
         for k in node.keywords:
             if k.arg == "out" and not (isinstance(k.value, ast.Constant) and k.value.value is None):
-                self.poison_expr(k.value, why, node)
+                for o in (k.value.elts if isinstance(k.value, ast.Tuple) else [k.value]):
+                    self.poison_expr(o, why, node)
+            elif k.arg in ("arr", "a", "dst") and d in self.INPLACE_FIRST:
+                self.poison_expr(k.value, why, node)          # the destination given by keyword: np.place(arr=F, mask=pv, vals=x)
+        nin = 2 if d in UFUNC2 else (1 if d in self.funcs and d is not None and d.split(".")[0] in ("np", "numpy") else 0)
+        if nin and len(node.args) > nin:
+            self.poison_expr(node.args[nin], why, node)       # the positional out operand of a ufunc: np.multiply(a, b, x, where=m)
         if d is not None and (d in self.INPLACE_FIRST or d.endswith(".at") and d.split(".")[0] in ("np", "numpy") or d in ("operator.setitem", "operator.delitem",
                               "operator.iadd", "operator.imul", "operator.isub", "operator.itruediv", "np.random.shuffle")) and node.args:
             self.poison_expr(node.args[0], why, node)
@@ -1873,31 +2012,20 @@ class Ev01(AutoEvaluator):
         if d in UFUNC2 and len(args) == 2 and not kws:
             x = ast.copy_location(ast.BinOp(left=args[0], op=UFUNC2[d](), right=args[1]), node)
             return self.evr(ast.fix_missing_locations(x))
-        if d in UFUNC2 and (len(args) == 2 and [k.arg for k in kws] == ["out"] or len(args) == 3 and not kws):
-            # np.multiply(a, b, out=x): the result is written into x (in place) and returned
-            x = ast.copy_location(ast.BinOp(left=args[0], op=UFUNC2[d](), right=args[1]), node)
-            v = self.evr(ast.fix_missing_locations(x))
-            out = kws[0].value if kws else args[2]
-            if isinstance(out, ast.Constant) and out.value is None:
-                return v
-            if isinstance(out, ast.Subscript):
-                t = ast.copy_location(ast.Subscript(value=out.value, slice=out.slice, ctx=ast.Store()), node)       # out=X[:, i]: written through that view
+        uf = self.ufunc_parts(d, node)
+        if uf is not None:
+            # np.multiply(a, b, out=x) / np.exp(a, out=x) [/ where=mask]: the result is written into x (in place) and x is returned
+            ins, out, where = uf
+            if len(ins) == 2:
+                call = ast.copy_location(ast.BinOp(left=ins[0], op=UFUNC2[d](), right=ins[1]), node)
             else:
-                t = ast.copy_location(ast.Subscript(value=out, slice=ast.Slice(lower=None, upper=None, step=None), ctx=ast.Store()), node)
-            self._assign(ast.fix_missing_locations(t), v, node)
-            return self.evr(out)
-        if d in self.funcs and (len(args) == 1 and [k.arg for k in kws] == ["out"] or len(args) == 2 and not kws) and d.split(".")[0] in ("np", "numpy"):
-            # np.exp(x, out=y): the elementwise function, written into y
-            call = ast.copy_location(ast.Call(func=node.func, args=[args[0]], keywords=[]), node)
+                call = ast.copy_location(ast.Call(func=node.func, args=[ins[0]], keywords=[]), node)
             v = self.evr(ast.fix_missing_locations(call))
-            out = kws[0].value if kws else args[1]
-            if isinstance(out, ast.Constant) and out.value is None:
+            if out is None and where is None:
                 return v
-            if isinstance(out, ast.Subscript):
-                t = ast.copy_location(ast.Subscript(value=out.value, slice=out.slice, ctx=ast.Store()), node)
-            else:
-                t = ast.copy_location(ast.Subscript(value=out, slice=ast.Slice(lower=None, upper=None, step=None), ctx=ast.Store()), node)
-            self._assign(ast.fix_missing_locations(t), v, node)
+            if out is None:
+                return Unknown(f"`{ast.unparse(node)[:60]}`: without out= the entries where the mask is false are uninitialised")
+            self.store_into(out, v, node, where)
             return self.evr(out)
         if isinstance(node.func, ast.Attribute) and node.func.attr == "reshape" and args and not kws:
             shp = [const_of(self.ev(a)) for a in (args[0].elts if len(args) == 1 and isinstance(args[0], (ast.Tuple, ast.List)) else args)]
@@ -1925,8 +2053,15 @@ class Ev01(AutoEvaluator):
             return self.evr(ast.fix_missing_locations(ast.copy_location(ast.BinOp(left=ast.Constant(value=1), op=ast.Div(), right=args[0]), node)))
         if d in ("np.real", "np.imag", "numpy.real", "numpy.imag") and len(args) == 1 and not kws:
             return self.evr(ast.fix_missing_locations(ast.copy_location(ast.Attribute(value=args[0], attr=d.split(".")[1], ctx=ast.Load()), node)))
-        if d in IDENT_FUNCS and len(args) == 1:
-            return self.evr(args[0])
+        kind = self.array_from_kind(d, node)
+        if kind is not None:
+            src = args[0] if d in ARRAY_FROM else node.func.value
+            if kind == "alias":
+                r = self.ref_of(src)
+                return r if r is not None else self.evr(src)
+            if kind == "copy":
+                return self.copied(self.evr(src))
+            return self.maybe_alias(src, node)
         if d in ("accumulate", "itertools.accumulate") and 1 <= len(args) <= 2 and all(k.arg in ("func", "initial") for k in kws):
             items = self.iter_items(args[0])
             fnode = args[1] if len(args) == 2 else next((k.value for k in kws if k.arg == "func"), None)
@@ -2015,6 +2150,31 @@ class Ev01(AutoEvaluator):
                     out.extend(x if isinstance(x, tuple) else (x,))
                 return tuple(out) if not any(isinstance(x, tuple) for x in out) else NotImplemented
             return NotImplemented
+        sel = self.selection_call(d, node)
+        if sel is not None:
+            # np.take(x, i) / x.take(i) / np.compress(c, x) / x.compress(c) / np.extract(c, x): the subscript x[i] / x[c] (1-D operands; axis= for the others)
+            x, ix, axis = sel
+            if axis is None and not self.one_d(x):
+                return NotImplemented          # without axis= these functions flatten a 2-D operand first: not a row / column selection
+            if axis:
+                ix = ast.Tuple(elts=[ast.Slice(lower=None, upper=None, step=None) for _ in range(axis)] + [ix], ctx=ast.Load())
+            sub = ast.copy_location(ast.Subscript(value=x, slice=ix, ctx=ast.Load()), node)
+            return self.evr(ast.fix_missing_locations(sub))
+        if isinstance(node.func, ast.Attribute) and node.func.attr == "put" and d not in ("np.put", "numpy.put") and not self.is_library_root(node.func.value):
+            # x.put(ind, v) is np.put(x, ind, v)
+            new = ast.copy_location(ast.Call(func=_dotted_node("np.put", node), args=[node.func.value] + list(args), keywords=kws), node)
+            r = self.builtin_call("np.put", ast.fix_missing_locations(new))
+            if r is not NotImplemented:
+                return r
+        if d in ("np.copyto", "numpy.copyto"):
+            got = dict(zip(("dst", "src"), args))
+            got.update({k.arg: k.value for k in kws if k.arg in ("dst", "src") and k.arg not in got})
+            rest = {k.arg for k in kws} - {"dst", "src", "casting"}
+            if len(args) <= 2 and set(got) == {"dst", "src"} and not rest and isinstance(got["dst"], (ast.Name, ast.Attribute, ast.Subscript)):
+                self.store_into(got["dst"], self.evr(got["src"]), node)          # np.copyto(x, v) / np.copyto(X[:, i], v): x[...] = v
+                return NONE
+        if d in SPLIT_FUNCS and len(args) >= 2 and all(k.arg == "axis" for k in kws):
+            return self.split_call(d, node)
         if d in ("SimpleNamespace", "types.SimpleNamespace") and not args:
             return DictV({k.arg: self.ref_of(k.value) for k in kws if k.arg is not None})       # a namespace object: fields by reference
         if d == "getattr" and len(args) in (2, 3) and not kws:
@@ -2132,6 +2292,221 @@ class Ev01(AutoEvaluator):
                 self.hists.append(H)
                 return H
         return NotImplemented
+
+    def is_library_root(self, n):
+        return isinstance(n, ast.Name) and n.id in LIBRARY_ROOTS and n.id not in self.env
+
+    def one_d(self, node):
+        """the array the expression denotes is known to have one axis (ModeEv: every per-mode array)"""
+        return self.ndim_of(self.evr(node)) == 1
+
+    def selection_call(self, d, node):
+        """(array node, selector node, axis or None) of a selection spelled as a library call, else None"""
+        args, kws = node.args, {k.arg: k.value for k in node.keywords}
+        if None in kws or any(isinstance(a, ast.Starred) for a in args):
+            return None
+        f = node.func
+        meth = f.attr if isinstance(f, ast.Attribute) and not self.is_library_root(f.value) else None
+        sig = None
+        if d in ("np.take", "numpy.take"):
+            sig, want = ("a", "indices", "axis"), ("a", "indices")
+        elif d in ("np.compress", "numpy.compress"):
+            sig, want = ("condition", "a", "axis"), ("a", "condition")
+        elif d in ("np.extract", "numpy.extract"):
+            sig, want = ("condition", "arr"), ("arr", "condition")
+        elif meth == "take":
+            sig, want = ("indices", "axis"), (None, "indices")
+        elif meth == "compress":
+            sig, want = ("condition", "axis"), (None, "condition")
+        if sig is None or len(args) > len(sig):
+            return None
+        got = dict(zip(sig, args))
+        for k_, v_ in kws.items():
+            if k_ not in sig or k_ in got:
+                return None          # mode= / out= ...: not this plain selection
+            got[k_] = v_
+        x = f.value if want[0] is None else got.get(want[0])
+        ix = got.get(want[1])
+        if x is None or ix is None:
+            return None
+        axis = None
+        if "axis" in got and not (isinstance(got["axis"], ast.Constant) and got["axis"].value is None):
+            c = const_of(self.ev(got["axis"]))
+            if c is None or c.denominator != 1 or not 0 <= c <= 2:
+                return None
+            axis = int(c)
+        return x, ix, axis
+
+    def ufunc_parts(self, d, node):
+        """(input nodes, out node or None, where node or None) of a ufunc call with an out / where operand, when every argument is placed; else None
+        (the call is then kept opaque and its out= operand given up by `inplace_unmodelled`)"""
+        nin = 2 if d in UFUNC2 else (1 if d in self.funcs and d.split(".")[0] in ("np", "numpy") else 0)
+        if not nin or any(isinstance(a, ast.Starred) for a in node.args):
+            return None
+        args, kws = node.args, {k.arg: k.value for k in node.keywords}
+        if None in kws or set(kws) - {"out", "where"} or not (nin <= len(args) <= nin + 1) or (len(args) == nin + 1 and "out" in kws):
+            return None
+        if len(args) == nin and not kws:
+            return None          # the plain function: handled as an operator
+        out = args[nin] if len(args) == nin + 1 else kws.get("out")
+        if isinstance(out, ast.Tuple) and len(out.elts) == 1:
+            out = out.elts[0]          # out=(x,)
+        if isinstance(out, ast.Constant) and out.value is None:
+            out = None
+        where = kws.get("where")
+        if isinstance(where, ast.Constant) and where.value is True:
+            where = None
+        if out is not None and not isinstance(out, (ast.Name, ast.Attribute, ast.Subscript)):
+            return None
+        return list(args[:nin]), out, where
+
+    def store_into(self, dst, v, node, where=None):
+        """a library call writes `v` into the array / view the expression `dst` denotes (out=x, out=X[:, i], np.copyto(x, v)); `where`: only the
+        entries selected by that mask - which this evaluator does not model (ModeEv does): the destination is not known afterwards"""
+        if where is not None:
+            self.poison_expr(dst, f"written under a mask by `{ast.unparse(node)[:60]}`, which the evaluator does not model", node)
+            return
+        if isinstance(dst, ast.Subscript):
+            t = ast.copy_location(ast.Subscript(value=dst.value, slice=dst.slice, ctx=ast.Store()), node)       # out=X[:, i]: written through that view
+        else:
+            t = ast.copy_location(ast.Subscript(value=dst, slice=ast.Slice(lower=None, upper=None, step=None), ctx=ast.Store()), node)
+        self._assign(ast.fix_missing_locations(t), v, node)
+
+    def ndim_of(self, v):
+        """number of axes of an array value when the evaluator can tell (history arrays and their column tuples are 2-D; a symbol the rule declared in
+        `ndims`; slicing keeps the axes, an integer index removes one), else None"""
+        if isinstance(v, (Hist, Block, Cols)):
+            return 2
+        if isinstance(v, ColRef):
+            return 1
+        if isinstance(v, Box):
+            v = v.v
+        if isinstance(v, tuple):
+            return 2 if v and all(isinstance(x, F.Rat) or is_unknown(x) for x in v) and self.nt is not None and len(v) <= self.nt else None
+        if not isinstance(v, F.Rat):
+            return None
+        n = unsym(v)
+        if n is not None:
+            return getattr(self, "ndims", {}).get(n)
+        u = unfn(v)
+        if u and u[0] == "idx" and len(u[1]) == 2 and not any(isinstance(x, str) for x in u[1]):
+            nb = self.ndim_of(u[1][0])
+            if nb is None:
+                return None
+            ui = unfn(u[1][1])
+            parts = list(ui[1]) if ui and ui[0] == "tuple" else [u[1][1]]
+            if any(isinstance(x, str) for x in parts):
+                return None
+            for x in parts:
+                ux = unfn(x)
+                if ux and ux[0] == "slice":
+                    continue
+                if const_of(x) is not None:
+                    nb -= 1
+                    continue
+                return None          # an index array, np.newaxis, Ellipsis ...: not decided here
+            return nb if nb >= 0 else None
+        if u and u[0] in ("attr:T",) and len(u[1]) == 1 and not isinstance(u[1][0], str):
+            return self.ndim_of(u[1][0])
+        return None
+
+    def split_call(self, d, node):
+        """np.split / np.array_split / np.vsplit / np.hsplit (x, [k1, k2, ...]): the pieces x[:k1], x[k1:k2], ..., x[kn:] along the axis (views of x).  A
+        number of equal sections needs the length of the axis and np.hsplit the number of axes (it cuts axis 0 of a 1-D array): when the evaluator
+        does not know them the pieces are unknown"""
+        args, kws = node.args, node.keywords
+        axis = SPLIT_FUNCS[d]
+        ax_node = next((k.value for k in kws), None) if kws else (args[2] if len(args) == 3 else None)
+        if len(args) > 3 or (ax_node is not None and axis is not None):
+            return Unknown(f"`{ast.unparse(node)[:60]}`: arguments the evaluator cannot place")
+        if axis is None:
+            axis = 0
+            if ax_node is not None:
+                c = const_of(self.ev(ax_node))
+                if c is None or c.denominator != 1:
+                    return Unknown(f"`{ast.unparse(node)[:60]}`: the axis is not a constant")
+                axis = int(c)
+        sec = self.evr(args[1])
+        if not isinstance(sec, tuple) or not sec or any(not isinstance(x, F.Rat) for x in sec):
+            return Unknown(f"`{ast.unparse(node)[:60]}`: the cut positions are not a list of values (a number of equal sections depends on the length of the axis)")
+        base = self.evr(args[0])
+        if is_unknown(base):
+            return base
+        nd = self.ndim_of(base)
+        if d.endswith("hsplit"):
+            if nd is None:
+                return Unknown(f"`{ast.unparse(node)[:60]}`: np.hsplit cuts axis 0 of a 1-D array and axis 1 otherwise, and the number of axes of the operand is not known")
+            axis = 0 if nd == 1 else 1
+        if axis < 0:
+            if nd is None:
+                return Unknown(f"`{ast.unparse(node)[:60]}`: a negative axis of an array whose number of axes is not known")
+            axis += nd
+        if axis < 0 or (nd is not None and axis >= nd) or axis > 2:
+            return Unknown(f"`{ast.unparse(node)[:60]}`: axis out of range")
+        bounds = [None] + list(sec) + [None]
+        out = []
+        for lo, hi in zip(bounds, bounds[1:]):
+            sl = ast.Slice(lower=None if lo is None else lit(lo), upper=None if hi is None else lit(hi), step=None)
+            ix = sl if axis == 0 else ast.Tuple(elts=[ast.Slice(lower=None, upper=None, step=None) for _ in range(axis)] + [sl], ctx=ast.Load())
+            sub = ast.copy_location(ast.Subscript(value=lit(base), slice=ix, ctx=ast.Load()), node)
+            out.append(self.evr(ast.fix_missing_locations(sub)))
+        return tuple(out)
+
+    def array_from_kind(self, d, node):
+        """"alias" / "copy" / "maybe" for a call that makes an array from ONE array (np.array(x), np.asarray(x, dtype=...), x.ravel() ...), else None"""
+        args, kws = node.args, node.keywords
+        names = {k.arg for k in kws}
+        if None in names or any(isinstance(a, ast.Starred) for a in args):
+            return None
+        if d in ARRAY_FROM:
+            if not args:
+                return None
+            kind = ARRAY_FROM[d]
+            base = d.split(".", 1)[1]
+            if base in ("atleast_1d", "atleast_2d", "atleast_3d", "squeeze", "ravel", "copy"):
+                if len(args) != 1 and base.startswith("atleast"):
+                    return None                    # several arrays in, a list out
+                return kind
+            if base == "array":
+                ck = next((k.value for k in kws if k.arg == "copy"), None)
+                if ck is not None and not (isinstance(ck, ast.Constant) and ck.value is True):
+                    return "maybe"                 # copy=False / None: the operand itself when no conversion is needed
+                return "copy"
+            if base in ("asarray", "asanyarray"):
+                # without dtype / order the operand itself (an ndarray in, the same ndarray out); with them a converted copy when the operand differs
+                return "alias" if len(args) == 1 and not (names - {"like"}) else "maybe"
+            return kind
+        f = node.func
+        if isinstance(f, ast.Attribute) and not (isinstance(f.value, ast.Name) and f.value.id in LIBRARY_ROOTS and f.value.id not in self.env):
+            if f.attr in ("view", "squeeze") and not args and not kws:
+                return "alias"
+            if f.attr == "ravel" and not kws and len(args) <= 1:
+                return "maybe"                     # a view when the memory is contiguous, else a copy
+            if f.attr == "astype" and "copy" in names:
+                ck = next(k.value for k in kws if k.arg == "copy")
+                if not (isinstance(ck, ast.Constant) and ck.value is True):
+                    return "maybe"
+        return None
+
+    def copied(self, v):
+        """the value of a new array with the content of v (np.array(x), np.copy(x)): no memory shared with any array of the evaluated code"""
+        if isinstance(v, (Hist, Block, Cols, ColRef, Box)):
+            return self.plain(v)
+        if isinstance(v, tuple):
+            return tuple(self.copied(x) for x in v)
+        return v
+
+    def maybe_alias(self, src, node):
+        """the operand itself or a converted copy (np.asarray(x, dtype=...), np.ascontiguousarray(x), x.ravel()): which one is not decided here, so the
+        operand's array is given up - a later store through either name must not be judged on a guess"""
+        v = self.evr(src)
+        hit = [x for x in (v if isinstance(v, tuple) else (v,)) if isinstance(x, (Hist, Block, Cols, ColRef))]
+        if hit:
+            why = f"`{ast.unparse(node)[:60]}` returns its operand or a copy of it (depends on dtype / memory layout): the array may be written through the result"
+            for x in hit:
+                self.poison(x, None, why, node)
+            return Unknown(why)
+        return self.copied(v)
 
     def inline_call(self, node, name, fn, scope=None):
         """evaluate the body of `fn` on the argument values (reference semantics for arrays).  `scope`: the environment a closure was created in - its
@@ -2282,6 +2657,14 @@ class ModeEv(Ev01):
                 return Box(v)                         # an array computed in place (`A / 2`, `F.copy()`): a new array with its own identity
         return v
 
+    def maybe_alias(self, src, node):
+        b = self.ref_of(src)
+        if isinstance(b, Box):
+            nb = Box(b.v, arr=True)          # its own identity; linked: a write into either leaves the other unknown
+            nb.link(b)
+            return nb
+        return super().maybe_alias(src, node)
+
     def stmt(self, st):
         # one array object under several names: `pc.Fe = Fe = np.exp(...)` (chained targets), `pc.Fe = Fe` / `dest = F` (a bare name on the right) bind
         # the *same* array, so a later in-place store through one name is seen through the other - whatever the order of binding and filling
@@ -2317,9 +2700,9 @@ class ModeEv(Ev01):
         for v in self.env.values():
             scan(v)
         if n[0] <= 1 or box.arr:
-            box.v = nv          # one name only, or certainly an array: in place
+            box.set(nv)          # one name only, or certainly an array: in place
             return
-        box.v = Unknown(f"a value bound to several names was updated in place through `{ast.unparse(st)[:60]}`")
+        box.set(Unknown(f"a value bound to several names was updated in place through `{ast.unparse(st)[:60]}`"))
         if isinstance(st.target, ast.Name) and st.target.id not in self.pinned:
             self.env[st.target.id] = Box(nv)
 
@@ -2332,7 +2715,7 @@ class ModeEv(Ev01):
             v = a.v if isinstance(a, _Lit) else (self.env.get(a.id) if isinstance(a, ast.Name) else (self.evr(a) if isinstance(a, (ast.Tuple, ast.List)) else None))
             for x in (v if isinstance(v, tuple) else (v,)):
                 if isinstance(x, Box):
-                    x.v = Unknown(why)
+                    x.set(Unknown(why))
                 elif isinstance(a, ast.Name) and isinstance(x, F.Rat) and a.id not in self.pinned and not x.is_const() and unsym(x) is None:
                     self.env[a.id] = Unknown(why)
 
@@ -2442,7 +2825,7 @@ class ModeEv(Ev01):
         self.sel_stores.append((box, s, v, st))
         box.arr = True
         if s is None or s:
-            box.v = v
+            box.set(v)
 
     def poison(self, v, target, why, st, _seen=None):
         if isinstance(v, Box) and target is not None:
@@ -2482,17 +2865,64 @@ class ModeEv(Ev01):
         self._assign(t, self.evr(val), node)
         return NONE
 
+    def one_d(self, node):
+        return True          # the per-mode arrays of mask-partitioned code (one entry per mode)
+
+    def whole_view(self, node, base):
+        if isinstance(base, Box):
+            return base
+        if isinstance(node, ast.Name) and not isinstance(node, _Lit):
+            b = self.ref_of(node)
+            return b if isinstance(b, Box) else None
+        return None
+
+    def store_into(self, dst, v, node, where=None):
+        if where is not None and not isinstance(dst, ast.Subscript):
+            return self.masked_store(dst, where, lit(v), node)          # ufunc(a, b, out=x, where=mask): x[mask] = (a op b)[mask]
+        return super().store_into(dst, v, node, where)
+
+    # masked stores spelled as library calls: for ONE generic mode all of them are `arr[sel] = value of that mode`.  How they pair the values with the
+    # selected entries (np.place: the first N values; np.putmask: by position; np.put: positions, not a mask) is a question of operand spaces, which
+    # C01-R7 (c01_masks.masked_store_call) types - a call it cannot type is an ANALYSIS-ERROR there
+    MASKED_SIGS = {"np.place": ("arr", "mask", "vals"), "np.putmask": ("a", "mask", "values"), "np.put": ("a", "ind", "v"), "np.copyto": ("dst", "src"),
+                   "operator.setitem": ("a", "b", "c")}
+    MASKED_SIGS.update({"numpy" + k[2:]: v for k, v in list(MASKED_SIGS.items()) if k.startswith("np.")})
+
+    def masked_call(self, d, node):
+        """(destination, selector or None, value) nodes of a masked-store library call when every argument is placed on the signature, else None"""
+        sig = self.MASKED_SIGS[d]
+        if len(node.args) > len(sig) or any(isinstance(a, ast.Starred) for a in node.args):
+            return None
+        got = dict(zip(sig, node.args))
+        extra = {}
+        for k in node.keywords:
+            if k.arg in sig and k.arg not in got and not d.startswith("operator."):
+                got[k.arg] = k.value
+            else:
+                extra[k.arg] = k.value
+        if set(got) != set(sig):
+            return None
+        if d.endswith(".copyto"):
+            where = extra.pop("where", None)
+            extra.pop("casting", None)
+            if isinstance(where, ast.Constant) and where.value is True:
+                where = None
+            return None if extra else (got["dst"], where, got["src"])
+        if d.endswith(".put"):
+            extra.pop("mode", None)          # out-of-range positions only
+        if extra:
+            return None
+        return got[sig[0]], got[sig[1]], got[sig[2]]
+
     def builtin_call(self, d, node):
         args = node.args
-        if d in ("np.place", "np.putmask", "np.put", "operator.setitem") and len(args) == 3 and not node.keywords:
-            return self.masked_store(args[0], args[1], args[2], node)
+        full = ast.Slice(lower=None, upper=None, step=None)
+        if d in self.MASKED_SIGS:
+            mc = self.masked_call(d, node)
+            if mc is not None:
+                return self.masked_store(mc[0], mc[1] if mc[1] is not None else full, mc[2], node)
         if isinstance(node.func, ast.Attribute) and node.func.attr == "__setitem__" and len(args) == 2 and not node.keywords:
             return self.masked_store(node.func.value, args[0], args[1], node)
-        if d == "np.copyto" and len(args) == 2 and [k.arg for k in node.keywords] == ["where"]:
-            return self.masked_store(args[0], node.keywords[0].value, args[1], node)
-        full = ast.Slice(lower=None, upper=None, step=None)
-        if d == "np.copyto" and len(args) == 2 and not node.keywords:
-            return self.masked_store(args[0], full, args[1], node)          # the whole array is overwritten
         if isinstance(node.func, ast.Attribute) and node.func.attr == "fill" and len(args) == 1 and not node.keywords \
                 and isinstance(node.func.value, (ast.Name, ast.Subscript, ast.Attribute)):
             return self.masked_store(node.func.value, full, args[0], node)
@@ -2570,7 +3000,7 @@ class ModeEv(Ev01):
 # ---------------------------------------------------------------------------------------------------------------- rule-side wrapper
 class Sem01(Sem):
     def __init__(self, ctx, fn, ev_cls=Ev01, cond=None, pinned=None, call=None, binop=None, env=None, run=True, subscript=None, inline=None, erase_T=False,
-                 loop_unroll=0, forward_stores=False, consts=None, nonnull=(), truth=None, distinct=(), nt=None, fancy_copy=False, cmp=None, abs_hook=None):
+                 loop_unroll=0, forward_stores=False, consts=None, nonnull=(), truth=None, distinct=(), nt=None, fancy_copy=False, cmp=None, abs_hook=None, ndims=None):
         self.ctx = ctx
         self.fn = fn
         self.ev = ev_cls(fn, src=ctx.src, cond=cond, pinned=pinned, call=call, binop=binop, env=env, subscript=subscript)
@@ -2586,6 +3016,7 @@ class Sem01(Sem):
         ev.nt = nt
         ev.fancy_copy = fancy_copy
         ev.cmp_hook = cmp
+        ev.ndims = dict(ndims or {})
         if abs_hook is not None:
             ev.abs_hook = abs_hook
         if run:
